@@ -1733,3 +1733,172 @@ func init() {
 			return out
 		}})
 }
+
+// ---- CODECSEQ
+//
+// WriteTo and ReadFrom of one type walk the same fields in the same order: the stream has no field tags, so the n-th
+// thing written is the n-th thing read. The rule extracts, from each of the two methods, the sequence of top-level
+// receiver fields in order of first use inside a write/read call (or, for the reader, first assignment), and demands
+// that the writer's sequence is a subsequence-preserving match of the reader's: same fields, same relative order.
+func codecFieldSeq(info *types.Info, fd *ast.FuncDecl, reader bool) []string {
+	recv := recvObj(info, fd)
+	if recv == nil {
+		return nil
+	}
+	seen := map[string]bool{}
+	var seq []string
+	add := func(e ast.Expr) {
+		// top-level field selected on the receiver
+		cur := unparen(e)
+		var first *ast.SelectorExpr
+		for {
+			switch v := cur.(type) {
+			case *ast.SelectorExpr:
+				first = v
+				cur = unparen(v.X)
+				continue
+			case *ast.IndexExpr:
+				cur = unparen(v.X)
+				continue
+			case *ast.StarExpr:
+				cur = unparen(v.X)
+				continue
+			case *ast.UnaryExpr:
+				cur = unparen(v.X)
+				continue
+			case *ast.CallExpr:
+				if s, ok := unparen(v.Fun).(*ast.SelectorExpr); ok {
+					cur = unparen(s.X)
+					continue
+				}
+			}
+			break
+		}
+		id, ok := cur.(*ast.Ident)
+		if !ok || info.Uses[id] != recv || first == nil {
+			return
+		}
+		if s := info.Selections[first]; s == nil || s.Kind() != types.FieldVal {
+			return
+		}
+		name := first.Sel.Name
+		if !seen[name] {
+			seen[name] = true
+			seq = append(seq, name)
+		}
+	}
+	ast.Inspect(fd.Body, func(x ast.Node) bool {
+		switch v := x.(type) {
+		case *ast.CallExpr:
+			nm := calleeName(info, v)
+			isIO := strings.HasPrefix(nm, "Write") || strings.HasPrefix(nm, "Read") || nm == "WriteTo" || nm == "ReadFrom"
+			if !isIO {
+				return true
+			}
+			for _, a := range v.Args {
+				add(a)
+			}
+			if s, ok := unparen(v.Fun).(*ast.SelectorExpr); ok {
+				add(s.X)
+			}
+		case *ast.AssignStmt:
+			if reader {
+				for _, l := range v.Lhs {
+					add(l)
+				}
+			}
+		}
+		return true
+	})
+	return seq
+}
+
+func scanCodecSeq(c *core.Ctx) []ob {
+	var out []ob
+	type pair struct {
+		pk   *packages.Package
+		w, r *ast.FuncDecl
+	}
+	byType := map[string]*pair{}
+	c.FuncDecls(func(pk *packages.Package, file *ast.File, fd *ast.FuncDecl) {
+		if fd.Recv == nil || fd.Body == nil || fileIsTestSupport(c.Program, fd.Pos()) || inExamples(pk) {
+			return
+		}
+		if fd.Name.Name != "WriteTo" && fd.Name.Name != "ReadFrom" {
+			return
+		}
+		k := core.ShortPkg(pk.PkgPath) + "." + core.RecvTypeName(fd)
+		p := byType[k]
+		if p == nil {
+			p = &pair{pk: pk}
+			byType[k] = p
+		}
+		if fd.Name.Name == "WriteTo" {
+			p.w = fd
+		} else {
+			p.r = fd
+		}
+	})
+	n := 0
+	for _, k := range sortedKeys(byType) {
+		p := byType[k]
+		if p.w == nil || p.r == nil {
+			continue
+		}
+		ws := codecFieldSeq(p.pk.TypesInfo, p.w, false)
+		rs := codecFieldSeq(p.pk.TypesInfo, p.r, true)
+		if len(ws) < 2 {
+			continue
+		}
+		n++
+		key := "CODECSEQ:" + k
+		// restrict both to the common fields, compare order; fields only on one side are reported too
+		inW, inR := map[string]bool{}, map[string]bool{}
+		for _, f := range ws {
+			inW[f] = true
+		}
+		for _, f := range rs {
+			inR[f] = true
+		}
+		var cw, cr, onlyW []string
+		for _, f := range ws {
+			if inR[f] {
+				cw = append(cw, f)
+			} else {
+				onlyW = append(onlyW, f)
+			}
+		}
+		for _, f := range rs {
+			if inW[f] {
+				cr = append(cr, f)
+			}
+		}
+		same := len(cw) == len(cr)
+		for i := range cw {
+			if same && cw[i] != cr[i] {
+				same = false
+			}
+		}
+		switch {
+		case len(onlyW) > 0:
+			out = append(out, violOb("CODECSEQ", key, c.Rel(p.r.Pos()), fmt.Sprintf("%s.WriteTo emits %s, which ReadFrom never reads or assigns (writer order %v, reader order %v): everything after it in the stream is decoded from the wrong bytes", k, strings.Join(onlyW, ", "), ws, rs)))
+		case !same:
+			out = append(out, violOb("CODECSEQ", key, c.Rel(p.r.Pos()), fmt.Sprintf("%s writes its fields in the order %v but reads them in the order %v: the stream carries no tags, so the fields are decoded from each other's bytes", k, cw, cr)))
+		default:
+			out = append(out, okOb("CODECSEQ", key, c.Rel(p.w.Pos()), fmt.Sprintf("writer and reader walk %v in the same order", cw), true))
+		}
+	}
+	c.Stats["codecseq_types"] = n
+	return out
+}
+
+func init() {
+	core.Register(&core.Rule{Name: "CODECSEQ", Props: []string{"C08"},
+		Doc: "WriteTo and ReadFrom of a type use its fields in the same order, and every field WriteTo emits is read or assigned by ReadFrom",
+		Run: func(c *core.Ctx) []ob {
+			out := scanCodecSeq(c)
+			out = append(out, core.Floor("CODECSEQ", nil, "types with a multi-field codec", c.Stats["codecseq_types"], 5)...)
+			out = append(out, control(c, "CODECSEQ", scanCodecSeq, "lvfixture.Pair")...)
+			return out
+		}})
+}
